@@ -43,12 +43,37 @@ Definition site_name (s : site) : mname :=
   | SS => NSending | SR => NReceived | SP => NParsed | SU => NUnmarshalled
   end.
 
+(* the class of the exception a hook raises.  The classes are those suds itself catches
+   somewhere or raises itself, next to ordinary ones:
+     XPlain Exception, XSub a user subclass of Exception, XValue ValueError, XLookup KeyError,
+     XAttr AttributeError, XType TypeError, XOS OSError,
+     XWebFault suds.WebFault                 (caught by the service call when faults is off)
+     XTransport suds.transport.TransportError, XTransportSub a subclass of it
+                                              (caught around transport.send and around the
+                                               schema loader's download of an import/include)
+     XSax xml.sax.SAXParseException          (what the reply parser raises itself)
+     XBase a subclass of BaseException that is no Exception *)
+Inductive xcls := XPlain | XSub | XValue | XLookup | XAttr | XType | XOS
+                | XWebFault | XTransport | XTransportSub | XSax | XBase.
+
+Definition xcls_code (x : xcls) : N :=
+  match x with
+  | XPlain => 0 | XSub => 1 | XValue => 2 | XLookup => 3 | XAttr => 4 | XType => 5 | XOS => 6
+  | XWebFault => 7 | XTransport => 8 | XTransportSub => 9 | XSax => 10 | XBase => 11
+  end.
+Definition xcls_eqb (a b : xcls) : bool := N.eqb (xcls_code a) (xcls_code b).
+(* isinstance(e, WebFault) / isinstance(e, TransportError) *)
+Definition is_webfault (x : xcls) : bool := match x with XWebFault => true | _ => false end.
+Definition is_transport (x : xcls) : bool :=
+  match x with XTransport | XTransportSub => true | _ => false end.
+
 (* what getattr(plugin, name, None) finds:
    Inherit       the no-op of the suds base class (called, nothing observable)
    NonCallable   an attribute that is not callable (None, 7): skipped
    FalsyCallable a callable object whose truth value is False: skipped by `if method and ...`
-   Fn e r        an overriding function; e: it edits its datum, r: it raises *)
-Inductive slot := Inherit | NonCallable | FalsyCallable | Fn (edits raises : bool).
+   Fn e r        an overriding function; e: it edits its datum, r: the class of the
+                 exception it raises (None: it returns) *)
+Inductive slot := Inherit | NonCallable | FalsyCallable | Fn (edits : bool) (raises : option xcls).
 
 Record plugin := Plug {
   p_init : bool; p_doc : bool; p_msg : bool;          (* isinstance(p, InitPlugin/DocumentPlugin/MessagePlugin) *)
@@ -92,20 +117,27 @@ Fixpoint index_from {A} (i : nat) (l : list A) : list (nat * A) :=
 Definition domain (k : kind) (ps : list (nat * plugin)) : list (nat * plugin) :=
   filter (fun ip => has_kind k (snd ip)) ps.
 
+(* an exception in flight: the hook call that raised it (site, plugin, URL of the document
+   for the document hooks, 0 otherwise) and its class *)
+Record hexc := HX { x_site : site; x_idx : nat; x_url : N; x_cls : xcls }.
+Definition exc := option hexc.
+
 (* Method.__call__: a fresh context, then the plugins of the domain in order;
-   an exception leaves the loop at once *)
+   an exception - of whatever class: there is no try in the loop - leaves the loop at once *)
 Fixpoint call (s : site) (url : N) (can : bool) (ps : list (nat * plugin)) (d : datum) (seen : list nat)
-  : list entry * datum * option (site * nat) :=
+  : list entry * datum * exc :=
   match ps with
   | [] => ([], d, None)
   | (i, p) :: r =>
     match get_slot (site_name s) p with
     | Fn e raises =>
       let ent := mkE s i url d seen in
-      if raises then ([ent], None, Some (s, i))        (* no context comes back *)
-      else
+      match raises with
+      | Some x => ([ent], None, Some (HX s i url x))        (* no context comes back *)
+      | None =>
         let '(l, d', x) := call s url can r (if e then edit s can (s, i) d else d) (seen ++ [i]) in
         (ent :: l, d', x)
+      end
     | _ => call s url can r d seen
     end
   end.
@@ -121,8 +153,6 @@ Definition cache := list (N * list marker).
 
 Fixpoint lookup (u : N) (c : cache) : option (list marker) :=
   match c with [] => None | (v, ms) :: r => if N.eqb u v then Some ms else lookup u r end.
-
-Definition exc := option (site * nat).
 
 (* the documents opened, in order, each with "was it fetched" *)
 Definition opens := list (N * bool).
@@ -159,17 +189,31 @@ Fixpoint open_all (ps : list plugin) (caching : bool) (c : cache) (urls : list N
     end
   end.
 
-Inductive cres := COk | CHookExc (s : site) (i : nat) | COther.
+(* COk the client; CHookExc the exception object a hook raised; CWrapped a new
+   Exception("import/include schema ... failed") raised while handling the hook's one *)
+Inductive cres := COk | CHookExc (s : site) (i : nat) (x : xcls) | CWrapped (s : site) (i : nat) (x : xcls) | COther.
+
+Fixpoint mem_N (u : N) (l : list N) : bool :=
+  match l with [] => false | v :: r => N.eqb u v || mem_N u r end.
+
+(* suds/xsd/sxbasic.py Import/Include.__download: the document of an xsd:import / xsd:include
+   is opened inside  try: ... except TransportError: raise Exception(msg);  every other
+   document (the WSDL, a wsdl:import) is opened without a handler.  xsd: the URLs the
+   schema loader opens. *)
+Definition doc_fail (xsd : list N) (h : hexc) : cres :=
+  if is_transport (x_cls h) && mem_N (x_url h) xsd
+  then CWrapped (x_site h) (x_idx h) (x_cls h)
+  else CHookExc (x_site h) (x_idx h) (x_cls h).
 
 (* Client.__init__: the documents are opened (the WSDL first), then the init hook *)
-Definition construct (ps : list plugin) (caching : bool) (pre : list N) (urls : list N)
+Definition construct (ps : list plugin) (caching : bool) (pre xsd : list N) (urls : list N)
   : list entry * opens * cres :=
   let '(l, os, roots, x) := open_all ps caching (map (fun u => (u, [])) pre) urls in
   match x with
-  | Some (s, i) => (l, os, CHookExc s i)
+  | Some h => (l, os, doc_fail xsd h)
   | None =>
     let '(li, _, xi) := hook SI 0 true ps (hd (Some []) roots) in
-    (l ++ li, os, match xi with Some (s, i) => CHookExc s i | None => COk end)
+    (l ++ li, os, match xi with Some h => CHookExc (x_site h) (x_idx h) (x_cls h) | None => COk end)
   end.
 
 (* ------------------------------------------------------------------ *)
@@ -196,21 +240,34 @@ Inductive result :=
 | RStatusExc (s : N)                    (* Exception((status, description)) *)
 | RStatusT (s : N)                      (* (status, description) *)
 | RParseExc
-| RHookExc (s : site) (i : nat)
+| RHookExc (s : site) (i : nat) (x : xcls)    (* the exception object raised by hook s of plugin i, raised *)
+| RHookRet (s : site) (i : nat) (x : xcls)    (* (500, that exception object) returned *)
 | RTransportExc
 | ROther.
 
 Definition markable (b : body) : bool := match b with BNormal | BFault => true | _ => false end.
 Definition odflt (d : datum) : list marker := match d with Some ms => ms | None => [] end.
 
-(* _SoapClient.process_reply *)
+Definition raised (h : hexc) : result := RHookExc (x_site h) (x_idx h) (x_cls h).
+
+(* _MethodProxy.__call__ around _SoapClient.invoke:
+     try: return client.invoke(args, kwargs)
+     except WebFault as e:  if self.faults(): raise;  return 500, e
+   applies to whatever exception comes out of the service call, a hook's included *)
+Definition proxy (v : inv) (r : result) : result :=
+  match r with
+  | RHookExc s i x => if is_webfault x && negb (i_faults v) then RHookRet s i x else r
+  | _ => r
+  end.
+
+(* _SoapClient.process_reply: no handler around any hook call *)
 Definition process_reply (ps : list plugin) (v : inv) : list entry * result :=
   let status := i_status v in
   if N.eqb status 202 || N.eqb status 204 then ([], RValue None)
   else
     let '(lr, dr, xr) := hook SR 0 (markable (i_body v)) ps (Some []) in
     match xr with
-    | Some (s, i) => (lr, RHookExc s i)
+    | Some h => (lr, raised h)
     | None =>
       let status_exit (l : list entry) :=
         (l, if i_faults v then RStatusExc status else RStatusT status) in
@@ -221,7 +278,7 @@ Definition process_reply (ps : list plugin) (v : inv) : list entry * result :=
         else
           let '(lu, du, xu) := hook SU 0 true ps root in       (* result = replyroot and get_reply(..) *)
           match xu with
-          | Some (s, i) => (l ++ lu, RHookExc s i)
+          | Some h => (l ++ lu, raised h)
           | None => (l ++ lu, if i_faults v then RValue du else ROk du)
           end in
       if N.eqb status 200 || N.eqb status 500 then
@@ -231,7 +288,7 @@ Definition process_reply (ps : list plugin) (v : inv) : list entry * result :=
           let root : datum := match b with BEmpty => None | _ => dr end in
           let '(lp, dp, xp) := hook SP 0 true ps root in
           match xp with
-          | Some (s, i) => (lr ++ lp, RHookExc s i)
+          | Some h => (lr ++ lp, raised h)
           | None =>
             match b with
             | BFault => (lr ++ lp, if i_faults v then RFault (odflt dp) else RFaultT (odflt dp))
@@ -248,16 +305,23 @@ Record iobs := IObs {
   o_res : result;                  (* what the invocation returns / raises *)
   o_res2 : result }.               (* nosend: what RequestContext.process_reply returns / raises *)
 
-(* _SoapClient.send (followed, for nosend, by the caller's RequestContext.process_reply) *)
+(* _SoapClient.send (followed, for nosend, by the caller's RequestContext.process_reply).
+     try: reply = transport.send(request)
+     except TransportError as e: return self.process_reply(content, e.httpcode, tostr(e))
+     return self.process_reply(reply.message, None, None)
+   The handler covers transport.send alone (i_status says which way it went); both calls
+   of process_reply are outside the try, so the class of an exception coming out of
+   process_reply plays no role here.  The service call's own handler (proxy) is around all
+   of it; RequestContext.process_reply is called by the user directly. *)
 Definition invoke (ps : list plugin) (v : inv) : iobs :=
   let '(lm, dm, xm) := hook SM 0 true ps (Some []) in
   match xm with
-  | Some (s, i) => IObs lm [] (RHookExc s i) RNotRun
+  | Some h => IObs lm [] (proxy v (raised h)) RNotRun
   | None =>
     (* soapenv.plain().encode(): the markers in the tree are in the bytes *)
     let '(ls, ds, xs) := hook SS 0 true ps dm in
     match xs with
-    | Some (s, i) => IObs (lm ++ ls) [] (RHookExc s i) RNotRun
+    | Some h => IObs (lm ++ ls) [] (proxy v (raised h)) RNotRun
     | None =>
       let bytes := odflt ds in
       match i_via v with
@@ -269,7 +333,7 @@ Definition invoke (ps : list plugin) (v : inv) : iobs :=
         if i_crash v then IObs (lm ++ ls) [bytes] RTransportExc RNotRun
         else
           let '(lr, res) := process_reply ps v in
-          IObs (lm ++ ls ++ lr) [bytes] res RNotRun
+          IObs (lm ++ ls ++ lr) [bytes] (proxy v res) RNotRun
       end
     end
   end.
@@ -280,12 +344,12 @@ Definition invoke (ps : list plugin) (v : inv) : iobs :=
 
 (* a plugin takes part in a stage when it is of the matching kind and overrides the hook
    with a function *)
-Definition takes_part (s : site) (p : plugin) : option (bool * bool) :=
+Definition takes_part (s : site) (p : plugin) : option (bool * option xcls) :=
   if has_kind (site_kind s) p then
     match get_slot (site_name s) p with Fn e r => Some (e, r) | _ => None end
   else None.
 
-Record part := mkPart { q_idx : nat; q_edits : bool; q_raises : bool }.
+Record part := mkPart { q_idx : nat; q_edits : bool; q_raises : option xcls }.
 
 (* the participants of a stage, in registration order *)
 Fixpoint parts_from (s : site) (i : nat) (ps : list plugin) : list part :=
@@ -308,10 +372,10 @@ Definition apply_marks (s : site) (can : bool) (d : datum) (ms : list marker) : 
 (* a stage handed d0: each participant exactly once, in order; the j-th one finds d0 edited
    by the participants before it, on a context the earlier ones have written to *)
 Definition stage_full (s : site) (url : N) (can : bool) (d0 : datum) (ps : list plugin)
-  : list (entry * bool) :=
+  : list (entry * option xcls) :=
   let l := parts s ps in
   map (fun j =>
-         let q := nth j l (mkPart 0 false false) in
+         let q := nth j l (mkPart 0 false None) in
          (mkE s (q_idx q) url (apply_marks s can d0 (marks s (firstn j l))) (map q_idx (firstn j l)),
           q_raises q))
       (seq 0 (length l)).
@@ -319,13 +383,15 @@ Definition stage_full (s : site) (url : N) (can : bool) (d0 : datum) (ps : list 
 Definition stage_out (s : site) (can : bool) (d0 : datum) (ps : list plugin) : datum :=
   apply_marks s can d0 (marks s (parts s ps)).
 
-(* everything stops at the first hook that raises *)
-Fixpoint cut (l : list (entry * bool)) : list entry * exc :=
+(* everything stops at the first hook that raises - whatever it raises *)
+Fixpoint cut (l : list (entry * option xcls)) : list entry * exc :=
   match l with
   | [] => ([], None)
   | (e, r) :: t =>
-    if r then ([e], Some (e_site e, e_idx e))
-    else let '(l', x) := cut t in (e :: l', x)
+    match r with
+    | Some x => ([e], Some (HX (e_site e) (e_idx e) (e_url e) x))
+    | None => let '(l', x) := cut t in (e :: l', x)
+    end
   end.
 
 (* ---- message hooks ---- *)
@@ -343,7 +409,7 @@ Definition d_parsed (ps : list plugin) (b : body) : datum :=
 Definition d_decoded (ps : list plugin) (b : body) : datum := stage_out SP true (d_parsed ps b) ps.
 Definition d_result (ps : list plugin) (b : body) : datum := stage_out SU true (d_decoded ps b) ps.
 
-Definition msg_stages (ps : list plugin) (b : body) : list (list (entry * bool)) :=
+Definition msg_stages (ps : list plugin) (b : body) : list (list (entry * option xcls)) :=
   [ stage_full SM 0 true d_marshalled ps;
     stage_full SS 0 true (d_sending ps) ps;
     stage_full SR 0 (markable b) d_received ps;
@@ -400,11 +466,23 @@ Definition result_eqb (a b : result) : bool :=
   | RRequest x, RRequest y | RBytes x, RBytes y | RFault x, RFault y | RFaultT x, RFaultT y => markers_eqb x y
   | RValue x, RValue y | ROk x, ROk y => datum_eqb x y
   | RStatusExc x, RStatusExc y | RStatusT x, RStatusT y => N.eqb x y
-  | RHookExc s i, RHookExc t j => site_eqb s t && Nat.eqb i j
+  | RHookExc s i x, RHookExc t j y | RHookRet s i x, RHookRet t j y =>
+    site_eqb s t && Nat.eqb i j && xcls_eqb x y
   | _, _ => false
   end.
 
-Definition is_hook_exc (r : result) : bool := match r with RHookExc _ _ => true | _ => false end.
+Definition is_hook_exc (r : result) : bool :=
+  match r with RHookExc _ _ _ | RHookRet _ _ _ => true | _ => false end.
+
+(* "an exception raised by a hook reaches the caller": the caller of the operation (call =
+   true) or of RequestContext.process_reply (call = false) gets the very exception object
+   the hook raised - raised, or, suds' convention for faults=False, a WebFault handed back
+   by the service call as (500, exception).  Nothing about the class otherwise: the
+   requirement is the same for every exception a hook can raise. *)
+Definition exc_reaches (call : bool) (v : inv) (h : hexc) (r : result) : bool :=
+  result_eqb r (RHookExc (x_site h) (x_idx h) (x_cls h)) ||
+  (call && is_webfault (x_cls h) && negb (i_faults v) &&
+   result_eqb r (RHookRet (x_site h) (x_idx h) (x_cls h))).
 
 (* the caller-visible outcome of the reply part when no hook raised *)
 Definition reply_result_ok (ps : list plugin) (v : inv) (n : nat) (r : result) : bool :=
@@ -424,14 +502,20 @@ Definition reply_result_ok (ps : list plugin) (v : inv) (n : nat) (r : result) :
      end
    else true).
 
+(* did a marshalled / sending hook raise *)
+Definition is_early (x : exc) : bool :=
+  match x with
+  | Some h => match x_site h with SM | SS => true | _ => false end
+  | None => false
+  end.
+
 (* one candidate number of stages reached.  The three flags switch parts of the check
    off; they are all true in the specification and only used to name what failed. *)
 Definition spec_inv_n_g (cv cs cr : bool) (ps : list plugin) (v : inv) (o : iobs) (n : nat) : bool :=
   let '(elog, ex) := cut (concat (firstn n (msg_stages ps (i_body v)))) in
   log_eqb_g cv (o_log o) elog &&
   (* does the request leave the client, and with which bytes *)
-  let raised_early :=                       (* a marshalled / sending hook raised *)
-    match ex with Some (SM, _) | Some (SS, _) => true | _ => false end in
+  let raised_early := is_early ex in        (* a marshalled / sending hook raised *)
   let sent_ok :=
     match i_via v with
     | Direct => if raised_early then match o_sent o with [] => true | _ => false end
@@ -441,12 +525,12 @@ Definition spec_inv_n_g (cv cs cr : bool) (ps : list plugin) (v : inv) (o : iobs
   (negb cs || sent_ok) &&
   (negb cr ||
   match ex with
-  | Some (s, i) =>
+  | Some h =>
     (* an exception raised by a hook reaches the caller *)
-    if raised_early then result_eqb (o_res o) (RHookExc s i) && result_eqb (o_res2 o) RNotRun
+    if raised_early then exc_reaches true v h (o_res o) && result_eqb (o_res2 o) RNotRun
     else match i_via v with
-         | Direct => result_eqb (o_res o) (RHookExc s i) && result_eqb (o_res2 o) RNotRun
-         | NoSend _ => result_eqb (o_res o) (RRequest (d_sent ps)) && result_eqb (o_res2 o) (RHookExc s i)
+         | Direct => exc_reaches true v h (o_res o) && result_eqb (o_res2 o) RNotRun
+         | NoSend _ => result_eqb (o_res o) (RRequest (d_sent ps)) && exc_reaches false v h (o_res2 o)
          end
   | None =>
     match i_via v with
@@ -496,18 +580,15 @@ Definition final (ps : list plugin) (v : inv) : result :=
     end
   else status_exit.
 
-Definition is_early (x : exc) : bool :=
-  match x with Some (SM, _) | Some (SS, _) => true | _ => false end.
-
 Definition invoke_decl (ps : list plugin) (v : inv) : iobs :=
   let c := cut (concat (firstn (reach v) (msg_stages ps (i_body v)))) in
   let bytes := d_sent ps in
   match snd c with
-  | Some (s, i) =>
-    if is_early (snd c) then IObs (fst c) [] (RHookExc s i) RNotRun
+  | Some h =>
+    if is_early (snd c) then IObs (fst c) [] (proxy v (raised h)) RNotRun
     else match i_via v with
-         | Direct => IObs (fst c) [bytes] (RHookExc s i) RNotRun
-         | NoSend _ => IObs (fst c) [] (RRequest bytes) (RHookExc s i)
+         | Direct => IObs (fst c) [bytes] (proxy v (raised h)) RNotRun
+         | NoSend _ => IObs (fst c) [] (RRequest bytes) (raised h)
          end
   | None =>
     match i_via v with
@@ -523,9 +604,6 @@ Definition reply_res (v : inv) (o : iobs) : result :=
 
 (* ---- document and init hooks ---- *)
 
-Fixpoint mem_N (u : N) (l : list N) : bool :=
-  match l with [] => false | v :: r => N.eqb u v || mem_N u r end.
-
 (* what the parsed hooks of a document are handed: the fetched text as the loaded hooks
    left it; for a document that was not fetched, the cached one *)
 Definition doc_root (ps : list plugin) (pre : list N) (u : N) (fetched : bool) : datum :=
@@ -533,13 +611,13 @@ Definition doc_root (ps : list plugin) (pre : list N) (u : N) (fetched : bool) :
   else if mem_N u pre then Some [] else stage_out SL true (Some []) ps.
 
 (* loaded once per fetched document, parsed once per opened document, each with its URL *)
-Definition doc_stages (ps : list plugin) (pre : list N) (os : opens) : list (list (entry * bool)) :=
+Definition doc_stages (ps : list plugin) (pre : list N) (os : opens) : list (list (entry * option xcls)) :=
   map (fun o : N * bool =>
          let (u, f) := o in
          (if f then stage_full SL u true (Some []) ps else []) ++
          stage_full SD u true (doc_root ps pre u f) ps) os.
 
-Definition init_stage (ps : list plugin) (pre : list N) (os : opens) : list (entry * bool) :=
+Definition init_stage (ps : list plugin) (pre : list N) (os : opens) : list (entry * option xcls) :=
   match os with
   | [] => stage_full SI 0 true (Some []) ps
   | (u, f) :: _ => stage_full SI 0 true (stage_out SD true (doc_root ps pre u f) ps) ps
@@ -548,21 +626,35 @@ Definition init_stage (ps : list plugin) (pre : list N) (os : opens) : list (ent
 Definition cres_eqb (a b : cres) : bool :=
   match a, b with
   | COk, COk | COther, COther => true
-  | CHookExc s i, CHookExc t j => site_eqb s t && Nat.eqb i j
+  | CHookExc s i x, CHookExc t j y | CWrapped s i x, CWrapped t j y =>
+    site_eqb s t && Nat.eqb i j && xcls_eqb x y
   | _, _ => false
   end.
+
+(* the hook's exception reaches the caller of Client(): the very object, whatever its class.
+   One reading is left open (see the report: suds answers a TransportError raised while the
+   schema loader downloads an xsd:import / xsd:include - by the transport or by a document
+   hook - with a new Exception("import schema ... failed") chained to it): for a hook of a
+   document in `xsd` raising a TransportError, that chained exception is accepted too. *)
+Definition ctor_exc_reaches (xsd : list N) (h : hexc) (r : cres) : bool :=
+  cres_eqb r (CHookExc (x_site h) (x_idx h) (x_cls h)) ||
+  (is_transport (x_cls h) && mem_N (x_url h) xsd &&
+   cres_eqb r (CWrapped (x_site h) (x_idx h) (x_cls h))).
 
 (* construction: the log is the documents' hooks then the init hook, cut at the first hook
    that raises; that exception reaches the caller.  When a hook raised, later documents
    are not opened: `os` then lists the opens that did happen. *)
-Definition spec_ctor_g (cv cr : bool) (ps : list plugin) (pre : list N) (os : opens) (log : list entry) (r : cres) : bool :=
+Definition spec_ctor_g (cv cr : bool) (ps : list plugin) (pre xsd : list N) (os : opens) (log : list entry) (r : cres) : bool :=
   let '(elog, ex) := cut (concat (doc_stages ps pre os) ++ init_stage ps pre os) in
   let '(dlog, dx) := cut (concat (doc_stages ps pre os)) in
   match dx with
-  | Some (s, i) => log_eqb_g cv log dlog && (negb cr || cres_eqb r (CHookExc s i))
+  | Some h => log_eqb_g cv log dlog && (negb cr || ctor_exc_reaches xsd h r)
   | None =>
     log_eqb_g cv log elog &&
-    (negb cr || match ex with Some (s, i) => cres_eqb r (CHookExc s i) | None => cres_eqb r COk end)
+    (negb cr || match ex with
+                | Some h => cres_eqb r (CHookExc (x_site h) (x_idx h) (x_cls h))
+                | None => cres_eqb r COk
+                end)
   end.
 Definition spec_ctor := spec_ctor_g true true.
 
@@ -574,6 +666,7 @@ Record ccase := CCase {
   c_plugins : list plugin;
   c_caching : bool;                (* the cache keeps what it is given *)
   c_pre : list N;                  (* documents cached beforehand (by a client without plugins) *)
+  c_xsd : list N;                  (* documents the schema loader opens (xsd:import / xsd:include) *)
   c_opens : opens;                 (* observed: DocumentReader.open calls, with "fetched" *)
   c_clog : list entry;             (* observed: hook log of the construction *)
   c_cres : cres;                   (* observed: outcome of the construction *)
@@ -589,7 +682,7 @@ Definition iobs_eqb (a b : iobs) : bool :=
    C16 is about the hooks) and predicts which are fetched, the log and the outcome. *)
 Definition c16_agrees (c : ccase) : bool :=
   let urls := map fst (c_opens c) in
-  let '(l, os, r) := construct (c_plugins c) (c_caching c) (c_pre c) urls in
+  let '(l, os, r) := construct (c_plugins c) (c_caching c) (c_pre c) (c_xsd c) urls in
   log_eqb (c_clog c) l && list_eqb open_eqb (c_opens c) os && cres_eqb (c_cres c) r &&
   match c_inv c with
   | None => true
@@ -598,7 +691,7 @@ Definition c16_agrees (c : ccase) : bool :=
 
 (* specification applied to the implementation's own outputs *)
 Definition c16_spec_ok (c : ccase) : bool :=
-  spec_ctor (c_plugins c) (c_pre c) (c_opens c) (c_clog c) (c_cres c) &&
+  spec_ctor (c_plugins c) (c_pre c) (c_xsd c) (c_opens c) (c_clog c) (c_cres c) &&
   match c_inv c with
   | None => true
   | Some (v, o) => spec_inv (c_plugins c) v o
@@ -611,9 +704,9 @@ Definition c16_spec_ok (c : ccase) : bool :=
    6 what reached the transport   7 what the caller got *)
 Definition c16_diag (c : ccase) : N :=
   let ps := c_plugins c in
-  if negb (spec_ctor_g false false ps (c_pre c) (c_opens c) (c_clog c) (c_cres c)) then 1
-  else if negb (spec_ctor_g true false ps (c_pre c) (c_opens c) (c_clog c) (c_cres c)) then 2
-  else if negb (spec_ctor_g true true ps (c_pre c) (c_opens c) (c_clog c) (c_cres c)) then 3
+  if negb (spec_ctor_g false false ps (c_pre c) (c_xsd c) (c_opens c) (c_clog c) (c_cres c)) then 1
+  else if negb (spec_ctor_g true false ps (c_pre c) (c_xsd c) (c_opens c) (c_clog c) (c_cres c)) then 2
+  else if negb (spec_ctor_g true true ps (c_pre c) (c_xsd c) (c_opens c) (c_clog c) (c_cres c)) then 3
   else match c_inv c with
        | None => 0
        | Some (v, o) =>
@@ -629,4 +722,6 @@ Definition dN (d : option (list (site * N))) : datum := option_map mN d.
 Definition EN (s : site) (i u : N) (v : option (list (site * N))) (seen : list N) : entry :=
   mkE s (N.to_nat i) u (dN v) (map N.to_nat seen).
 Definition CHookExcN (s : site) (i : N) := CHookExc s (N.to_nat i).
+Definition CWrappedN (s : site) (i : N) := CWrapped s (N.to_nat i).
 Definition RHookExcN (s : site) (i : N) := RHookExc s (N.to_nat i).
+Definition RHookRetN (s : site) (i : N) := RHookRet s (N.to_nat i).
